@@ -10,9 +10,8 @@ This file: property theorems only.
 Two remarks on the statements.
 * `removeDup_idempotent` does not need `dist2` to be symmetric: the separation relation that `removeDup_separated` establishes
   has the argument order of the duplicate test itself.
-* Stability: the model's `sortBy` (insertion at the front of the recursively sorted tail, strict `<`) is NOT stable although its
-  doc-comment says so: it reverses the input order of entries with equal keys (`sortBy_ties_reversed`, `sortBy_not_stable`);
-  python's `list.sort` keeps it.  Permutation and sortedness are unaffected.
+* Stability: `sortBy_stable` — entries of equal key keep their input order, as with python's `list.sort` (only irreflexivity of
+  `<` on ℝ is used: `insertBy` moves the new entry only past entries of strictly smaller key).
 -/
 import HypnoModel.Gen.Critical
 import HypnoModel.Model.Critical
@@ -133,16 +132,16 @@ theorem sortBy_sorted (key : Pt ℝ → ℝ) (l : List (Pt ℝ)) :
     (sortBy key l).Pairwise (fun p q => ¬ key q < key p) :=
   CriticalLemmas.sortBy_sorted key l
 
-/-- ties: the entries with any given key value `k` come out in the REVERSE of their input order — the model's sort is
-    anti-stable, python's `list.sort` is stable (see the header) -/
-theorem sortBy_ties_reversed (key : Pt ℝ → ℝ) (k : ℝ) (l : List (Pt ℝ)) :
-    withKey key k (sortBy key l) = (withKey key k l).reverse :=
+/-- stability: for every key value `k` the entries with that key appear in the result in their input order (`withKey key k` =
+    filter on `key · = k`), as with python's stable `list.sort` -/
+theorem sortBy_stable (key : Pt ℝ → ℝ) (k : ℝ) (l : List (Pt ℝ)) :
+    withKey key k (sortBy key l) = withKey key k l :=
   sortBy_withKey key k l
 
-/-- a witness that the model's sort is not stable: two X-points with the same psi are swapped -/
-theorem sortBy_not_stable :
-    sortBy (fun p => p.psi) [(⟨0, 0, 1⟩ : Pt ℝ), ⟨1, 0, 1⟩] = [⟨1, 0, 1⟩, ⟨0, 0, 1⟩] := by
-  simp [sortBy, insertBy]
+/-- concrete instance: two X-points with the same psi keep their order, a third with smaller psi moves in front of both -/
+theorem sortBy_stable_example :
+    sortBy (fun p => p.psi) [(⟨0, 0, 1⟩ : Pt ℝ), ⟨1, 0, 1⟩, ⟨2, 0, 0⟩] = [⟨2, 0, 0⟩, ⟨0, 0, 1⟩, ⟨1, 0, 1⟩] := by
+  norm_num [sortBy, insertBy]
 
 /-- the primary O-point (head of the sorted list) is one of the O-points and minimises the squared distance to (Rmid, Zmid) -/
 theorem primary_o_point_nearest (Rmid Zmid : ℝ) (os : List (Pt ℝ)) (hne : os ≠ []) :
